@@ -24,7 +24,7 @@ Record st_ok (s : state) : Prop := {
 Definition is_session_op (o : op) : bool := match o with OpClose | OpReopen => true | _ => false end.
 
 Definition cleared (s : state) : state :=
-  mkState (clear_log (st s)) (objs s) (opidx s) (closed s) (session s) (sbv s) (conf s) (sbeof s).
+  mkState (clear_log (st s)) (objs s) (opidx s) (closed s) (session s) (sbv s) (conf s) (sbeof s) (gh s).
 
 Lemma compile_cleared : forall s o, compile (cleared s) o = compile s o.
 Proof. reflexivity. Qed.
@@ -38,7 +38,8 @@ Lemma step_api : forall s o, is_session_op o = false ->
   (let '(cmds, ok, upd) := compile s o in
    let '(st', done) := exec (clear_log (st s)) cmds in
    let applies := match o with OpHardLink _ _ _ _ => done | _ => ok && done end in
-   (mkState st' (if applies then upd (objs s) else objs s) (opidx s + 1) (closed s) (session s) (sbv s) (conf s) (sbeof s),
+   let g' := match o with OpWriteVL y lens sizes => snd (vl_compile s y lens sizes) | _ => gh s end in
+   (mkState st' (if applies then upd (objs s) else objs s) (opidx s + 1) (closed s) (session s) (sbv s) (conf s) (sbeof s) g',
     ok && done)).
 Proof. intros s o H. destruct o; try discriminate; reflexivity. Qed.
 
@@ -65,6 +66,36 @@ Proof.
   - intros o' k' [].
 Qed.
 
+(* globalHeapWriter.Flush: one write, of the recorded size, at the start of the collection of that size *)
+Lemma gflush_spec : forall g s, lens_ok cfgb (exts s) ->
+  al (gflush g s) = al s /\ exts (gflush g s) = exts s /\ ovf (gflush g s) = ovf s /\ blocks (gflush g s) = blocks s /\
+  fsize s <= fsize (gflush g s) /\
+  (ext_ok s -> ovf s = false -> fsize s <= next (al s) -> fsize (gflush g s) <= next (al s)) /\
+  (forall w, In w (wlog (gflush g s)) -> In w (wlog s) \/
+      exists e sz, In e (exts s) /\ owner e = 0 /\ kind_of e = KGCol sz /\ len e = sz /\ w = (start e, sz)) /\
+  (g = None -> gflush g s = s).
+Proof.
+  intros g s Hl.
+  assert (Hid : al s = al s /\ exts s = exts s /\ ovf s = ovf s /\ blocks s = blocks s /\ fsize s <= fsize s /\
+                (ext_ok s -> ovf s = false -> fsize s <= next (al s) -> fsize s <= next (al s)) /\
+                (forall w, In w (wlog s) -> In w (wlog s) \/
+                   exists e sz, In e (exts s) /\ owner e = 0 /\ kind_of e = KGCol sz /\ len e = sz /\ w = (start e, sz)))
+    by (repeat split; auto; lia).
+  destruct Hid as (I1 & I2 & I3 & I4 & I5 & I6 & I7).
+  unfold gflush. destruct g as [[sz fr]|]; [|repeat split; auto].
+  destruct (find_ext (exts s) 0 (KGCol sz)) as [e|] eqn:E; [|repeat split; auto; discriminate].
+  destruct (find_ext_spec _ _ _ _ E) as (Hin & Ho & Hk).
+  assert (HL : len e = sz).
+  { unfold lens_ok in Hl. rewrite Forall_forall in Hl. apply (Hl e Hin sz). rewrite Hk. reflexivity. }
+  destruct (write_fields s (start e) sz) as (A & B & C & D).
+  split; [exact A|]. split; [exact B|]. split; [exact C|]. split; [exact D|].
+  split; [apply write_fsize_ge|]. split; [|split; [|discriminate]].
+  - intros Hok Hov Hfs. destruct (Hok Hov) as [HF _]. rewrite Forall_forall in HF. specialize (HF e Hin).
+    unfold ext_end in HF. apply write_fsize; lia.
+  - intros w Hw. destruct (write_log _ _ _ _ Hw) as [H|[H _]]; [left; exact H|].
+    right. exists e, sz. auto.
+Qed.
+
 (* what Close does to a state (on the cleared copy used by step) *)
 Lemma do_close_spec : forall s, st_ok s ->
   let s1 := do_close (cleared s) in
@@ -72,40 +103,49 @@ Lemma do_close_spec : forall s, st_ok s ->
   objs s1 = objs s /\ conf s1 = conf s /\ sbv s1 = sbv s /\ closed s1 = true /\ session s1 = session s /\
   (ovf (st s) = false -> fsize (st s1) = next (al (st s))) /\
   next (al (st s)) <= sbeof s1 /\ sbeof s <= sbeof s1 /\
-  (forall w, In w (wlog (st s1)) -> w = (0, sb_update_len)) /\
+  (forall w, In w (wlog (st s1)) -> w = (0, sb_update_len) \/
+      exists e sz, In e (exts (st s)) /\ owner e = 0 /\ kind_of e = KGCol sz /\ len e = sz /\ w = (start e, sz)) /\
   (closed s = true -> st s1 = clear_log (st s) /\ sbeof s1 = sbeof s) /\
-  (next (al (st s)) <= sbeof s -> wlog (st s1) = [] /\ sbeof s1 = sbeof s /\ fsize (st s1) = N.max (fsize (st s)) (next (al (st s))) \/ closed s = true).
+  (next (al (st s)) <= sbeof s -> gh s = None ->
+     wlog (st s1) = [] /\ sbeof s1 = sbeof s /\ fsize (st s1) = N.max (fsize (st s)) (next (al (st s))) \/ closed s = true) /\
+  gh s1 = gh s.
 Proof.
   intros s Hs s1. unfold s1, do_close, cleared. cbn [closed].
   destruct (closed s) eqn:Ecl.
-  - cbn [st objs conf sbv closed session sbeof clear_log exts ovf al blocks fsize wlog].
+  - cbn [st objs conf sbv closed session sbeof clear_log exts ovf al blocks fsize wlog gh].
     repeat split; auto; try lia.
     + intros H. pose proof (ok_closed _ Hs Ecl H). pose proof (ok_fs _ Hs H). lia.
     + apply (ok_sbeof _ Hs Ecl).
     + intros w [].
-  - cbn [st objs conf sbv closed session sbeof].
+  - cbn [st objs conf sbv closed session sbeof gh].
     rewrite (ok_conf _ Hs). unfold close_store. cbn [c_extend_close gcfg].
-    set (st1 := if sbeof s <? next (al (clear_log (st s))) then write (clear_log (st s)) 0 sb_update_len else clear_log (st s)).
+    destruct (gflush_spec (gh s) (clear_log (st s)) (ok_lens _ Hs)) as (G1 & G2 & G3 & G4 & G5 & G6 & G7 & G8).
+    set (st0 := gflush (gh s) (clear_log (st s))) in *.
+    set (st1 := if sbeof s <? next (al (clear_log (st s))) then write st0 0 sb_update_len else st0).
+    cbn [clear_log al exts ovf blocks fsize wlog] in G1, G2, G3, G4, G5, G6, G7.
     assert (Hf : exts st1 = exts (st s) /\ ovf st1 = ovf (st s) /\ al st1 = al (st s) /\ blocks st1 = blocks (st s)).
     { unfold st1. destruct (sbeof s <? next (al (clear_log (st s)))).
-      - destruct (write_fields (clear_log (st s)) 0 sb_update_len) as (A & B & C & D). rewrite A, B, C, D. cbn. auto.
-      - cbn. auto. }
+      - destruct (write_fields st0 0 sb_update_len) as (A & B & C & D). rewrite A, B, C, D. auto.
+      - auto. }
     destruct Hf as (F1 & F2 & F3 & F4).
+    assert (Hfs1 : ovf (st s) = false -> fsize st1 <= next (al (st s))).
+    { intros H. pose proof (ok_fs _ Hs H). pose proof (ok_sb _ Hs H).
+      assert (fsize st0 <= next (al (st s))) by (apply G6; auto; apply ext_ok_clear, (ok_ext _ Hs)).
+      unfold st1. destruct (sbeof s <? next (al (clear_log (st s)))); [|assumption].
+      apply write_fsize; [assumption|]. unfold sb_update_len. unfold sb_size in *. destruct (sbv s =? 0); lia. }
     cbn [exts ovf al blocks fsize wlog next]. rewrite F1, F2, F3, F4.
-    repeat split; auto; try lia.
-    + intros H. pose proof (ok_fs _ Hs H). pose proof (ok_sb _ Hs H).
-      assert (fsize st1 <= next (al (st s))).
-      { unfold st1. destruct (sbeof s <? next (al (clear_log (st s)))).
-        - apply write_fsize; cbn [clear_log fsize]; [lia|]. unfold sb_update_len. unfold sb_size in *. destruct (sbv s =? 0); lia.
-        - cbn. lia. }
-      lia.
-    + cbn [clear_log al]. lia.
+    split; [reflexivity|]. split; [reflexivity|]. split; [reflexivity|]. split; [reflexivity|].
+    split; [reflexivity|]. split; [reflexivity|]. split; [reflexivity|]. split; [reflexivity|]. split; [reflexivity|].
+    split; [intros H; specialize (Hfs1 H); lia|].
+    split; [cbn [clear_log al]; lia|]. split; [lia|].
+    split; [|split; [discriminate|split; [|reflexivity]]].
     + intros w Hw. unfold st1 in Hw. destruct (sbeof s <? next (al (clear_log (st s)))).
-      * destruct (write_log _ _ _ _ Hw) as [H|[H _]]; [destruct H | exact H].
-      * destruct Hw.
-    + intros Hle. left. cbn [clear_log al] in *. unfold st1.
+      * destruct (write_log _ _ _ _ Hw) as [H|[H _]]; [|left; exact H].
+        destruct (G7 w H) as [[]|H']. right. exact H'.
+      * destruct (G7 w Hw) as [[]|H']. right. exact H'.
+    + intros Hle Hg. left. unfold st1. cbn [clear_log al].
       assert (E : sbeof s <? next (al (st s)) = false) by (apply N.ltb_ge; exact Hle).
-      rewrite E. cbn [clear_log wlog fsize]. repeat split; auto. lia.
+      rewrite E. rewrite (G8 Hg). cbn [clear_log wlog fsize]. repeat split; auto. lia.
 Qed.
 
 Lemma step_objs_ok : forall s o, st_ok s -> objs_ok (objs (fst (step s o))).
@@ -301,11 +341,14 @@ Proof.
   - (* only the superblock update of Close *)
     destruct (step_session_store s o Eo) as (Ex & Ew & _).
     destruct (do_close_spec s Hs) as (Dx & _ & _ & _ & _ & _ & _ & _ & _ & _ & _ & _ & Dw & _).
-    rewrite Ew in Hw. rewrite Ex, Dx. rewrite (Dw w Hw).
-    exists (mkExt 0 (sb_size (sbv s)) 0 KSuper). split; [apply (ok_super _ Hs)|].
-    cbn. repeat split; try lia.
-    + unfold ext_end, sb_update_len, sb_size. cbn. destruct (sbv s =? 0); lia.
-    + left. destruct o; try discriminate; reflexivity.
+    rewrite Ew in Hw. rewrite Ex, Dx. destruct (Dw w Hw) as [->|(e & sz & Hin & Ho & Hk & HL & ->)].
+    + exists (mkExt 0 (sb_size (sbv s)) 0 KSuper). split; [apply (ok_super _ Hs)|].
+      cbn. repeat split; try lia.
+      * unfold ext_end, sb_update_len, sb_size. cbn. destruct (sbv s =? 0); lia.
+      * left. destruct o; try discriminate; reflexivity.
+    + (* the flush of the current global heap collection: exactly its extent *)
+      exists e. split; [exact Hin|]. cbn [fst snd]. unfold ext_end. rewrite HL. repeat split; try lia.
+      left. rewrite Ho, Hk. destruct o; try discriminate; reflexivity.
   - pose proof (compile_good _ _ s o (ok_objs _ Hs) (ok_conf _ Hs)) as G.
     assert (HC : cmds_ok cfgb (targets s o) [] (fst (fst (compile s o))) = true).
     { destruct (compile s o) as [[cmds ok] upd]. destruct G as (G & _). exact G. }
@@ -406,19 +449,36 @@ Fixpoint run_writes (s : state) (h : list op) : list (N * N) :=
   match h with [] => [] | o :: r => wlog (st (fst (step s o))) ++ run_writes (fst (step s o)) r end.
 
 Definition settled (F : N) (E : list extent) (s : state) : Prop :=
-  st_ok s /\ fsize (st s) = F /\ next (al (st s)) = F /\ exts (st s) = E /\ ovf (st s) = false /\ F <= sbeof s.
+  st_ok s /\ fsize (st s) = F /\ next (al (st s)) = F /\ exts (st s) = E /\ ovf (st s) = false /\ F <= sbeof s /\
+  (closed s = true \/ gh s = None).      (* no global heap collection waits for the flush of the next Close *)
+
+(* a variable-length write that issues no store command leaves the heap writer without a collection *)
+Lemma vl_compile_quiet : forall s y lens sizes, gh s = None ->
+  fst (fst (compile s (OpWriteVL y lens sizes))) = [] -> snd (vl_compile s y lens sizes) = None.
+Proof.
+  intros s y lens sizes Hg H. unfold compile in H. unfold vl_compile in *.
+  destruct (closed s); [exact Hg|].
+  destruct (get_obj (objs s) y) as [ob|]; [|exact Hg].
+  rewrite Hg in *. destruct (vl_walk None lens) as [hc g'] eqn:Ev.
+  destruct (o_kind ob); try reflexivity.
+  - cbn in H. apply app_eq_nil in H. destruct H as [_ H]. discriminate.
+  - destruct (negb (session s =? 0)); [reflexivity|]. destruct sizes as [|n0 sz]; [reflexivity|].
+    destruct (chunked_write y ob (n0 :: sz)) as [[cc ok] upd]. cbn in H |- *. apply app_eq_nil in H. destruct H as [H _]. subst hc.
+    apply (vl_walk_none _ _ Ev).
+Qed.
 
 Lemma quiet_step_settled : forall F E s o, settled F E s -> quiet_step s o ->
   settled F E (fst (step s o)) /\ wlog (st (fst (step s o))) = [].
 Proof.
-  intros F E s o (Hs & H1 & H2 & H3 & H4 & H5) Hq.
+  intros F E s o (Hs & H1 & H2 & H3 & H4 & H5 & H6) Hq.
   pose proof (step_ok s o Hs) as Hs'.
   destruct (is_session_op o) eqn:Eo.
-  - destruct (do_close_spec s Hs) as (Dx & Dov & Dal & _ & _ & _ & Dsbv & _ & _ & Dfs & _ & _ & _ & Dcl & Dq).
+  - destruct (do_close_spec s Hs) as (Dx & Dov & Dal & _ & _ & _ & Dsbv & Dcd & _ & Dfs & _ & _ & _ & Dcl & Dq & _).
     assert (Hle : next (al (st s)) <= sbeof s) by lia.
     assert (Hq1 : wlog (st (do_close (cleared s))) = [] /\ sbeof (do_close (cleared s)) = sbeof s /\
                   fsize (st (do_close (cleared s))) = F).
-    { destruct (Dq Hle) as [(A & B & C)|Hc].
+    { destruct H6 as [Hc|Hg]; [destruct (Dcl Hc) as [A B]; rewrite A, B; cbn; auto|].
+      destruct (Dq Hle Hg) as [(A & B & C)|Hc].
       - repeat split; auto. rewrite C. lia.
       - destruct (Dcl Hc) as [A B]. rewrite A, B. cbn. auto. }
     destruct Hq1 as (Q1 & Q2 & Q3).
@@ -427,12 +487,15 @@ Proof.
     + unfold settled. split; [split; [exact Hs'|] | cbn [st]; exact Q1].
       cbn [st sbeof]. rewrite Dx, Dov, Dal, Q2, Q3. repeat split; auto.
     + unfold settled. split; [split; [exact Hs'|] | cbn [st reopen_store wlog]; exact Q1].
-      cbn [st sbeof reopen_store fsize al next exts ovf wlog]. rewrite Dx, Dov, Q2, Q3.
+      cbn [st sbeof reopen_store fsize al next exts ovf wlog gh]. rewrite Dx, Dov, Q2, Q3.
       repeat split; auto. lia.
   - cbn [quiet_step] in Hq. assert (Hq' : fst (fst (compile s o)) = []) by (destruct o; try discriminate; exact Hq).
+    assert (Hg' : closed s = true \/
+                  match o with OpWriteVL y lens sizes => snd (vl_compile s y lens sizes) | _ => gh s end = None).
+    { destruct H6 as [Hc|Hg]; [left; exact Hc|]. right. destruct o; try exact Hg. apply vl_compile_quiet; auto. }
     rewrite (step_api s o Eo) in *. destruct (compile s o) as [[cmds ok] upd]. cbn [fst] in Hq'. subst cmds.
     cbn [exec fst st] in *. unfold settled. split; [split; [exact Hs'|] | reflexivity].
-    cbn [st sbeof clear_log fsize al next exts ovf]. repeat split; auto.
+    cbn [st sbeof clear_log fsize al next exts ovf closed gh]. repeat split; auto.
 Qed.
 
 Lemma all_quiet_settled : forall h F E s, settled F E s -> all_quiet s h ->
